@@ -112,7 +112,8 @@ func createAudioSeg(vodFS fs.FS, a *asset, rec audioRecipe) (*mp4.MediaSegment, 
 			sampleItvls[len(sampleItvls)-1].nrFillSamples = nrFills
 			break
 		}
-		sampleItvls[len(sampleItvls)-1].endIdx = uint32((rec.audioInEnd - nextAudioStart) / sampleDur)
+		// The end index is relative to the start of the segment (the interval may start inside the segment)
+		sampleItvls[len(sampleItvls)-1].endIdx = uint32((rec.audioInEnd - s.StartTime) / sampleDur)
 		timeCollected += sampleItvls[len(sampleItvls)-1].dur(sampleDur)
 		break
 	}
